@@ -19,7 +19,6 @@ package c03
 import (
 	"fmt"
 	"os"
-	"sort"
 	"strconv"
 	"strings"
 	"time"
@@ -162,13 +161,70 @@ func execHook(lines []string) (out []string) {
 
 func durLit(ns int64) string { return fmt.Sprintf("%du", ns/1000) }
 
+// defScripts: task definitions whose acceptance the window node's validation decides (`def <name>` cases).
+var defScripts = map[string]struct {
+	batch  bool
+	script string
+}{
+	"stream-window":           {false, "stream\n|from().measurement('m')\n|window().period(10s).every(5s)\n"},
+	"stream-window-count":     {false, "stream\n|from().measurement('m')\n|window().periodCount(3).everyCount(2)\n"},
+	"batch-query-window":      {true, "batch\n|query('SELECT v FROM \"db\".\"rp\".\"m\"').period(10s).every(10s)\n|window().period(10s).every(10s)\n"},
+	"window-after-window":     {false, "stream\n|from().measurement('m')\n|window().period(10s).every(10s)\n|window().period(10s).every(10s)\n"},
+	"window-no-period":        {false, "stream\n|from().measurement('m')\n|window()\n"},
+	"window-period-and-count": {false, "stream\n|from().measurement('m')\n|window().period(10s).periodCount(3).everyCount(1)\n"},
+	"window-count-align":      {false, "stream\n|from().measurement('m')\n|window().periodCount(3).everyCount(1).align()\n"},
+	"window-count-no-every":   {false, "stream\n|from().measurement('m')\n|window().periodCount(3)\n"},
+	"window-count-every-neg":  {false, "stream\n|from().measurement('m')\n|window().periodCount(3).everyCount(-1)\n"},
+	"window-every-only":       {false, "stream\n|from().measurement('m')\n|window().every(10s)\n"},
+}
+
+func execDef(lines []string) (out []string) {
+	h := strings.Fields(stripObs(lines[0]))
+	if len(h) != 2 {
+		return []string{strings.Join(h, " ") + " => err"}
+	}
+	d, ok := defScripts[h[1]]
+	if !ok {
+		return []string{strings.Join(h, " ") + " => unknown"}
+	}
+	obs := func() (obs string) {
+		defer func() {
+			if r := recover(); r != nil {
+				obs = "panic"
+			}
+		}()
+		tm, err := kit.NewTM(kit.TMOpts{})
+		if err != nil {
+			return "err"
+		}
+		defer tm.Close()
+		tt := kapacitor.StreamTask
+		if d.batch {
+			tt = kapacitor.BatchTask
+		}
+		task, err := tm.TM.NewTask("c03def", d.script, tt, []kapacitor.DBRP{{Database: "db", RetentionPolicy: "rp"}}, 0, nil)
+		if err != nil {
+			return "rejected"
+		}
+		if d.batch {
+			// a batch task needs an InfluxDB service to start; definition acceptance is what matters here
+			return "accepted"
+		}
+		if _, err := tm.TM.StartTask(task); err != nil {
+			return "rejected"
+		}
+		return "accepted"
+	}()
+	return []string{strings.Join(h, " ") + " => " + obs}
+}
+
 func execTask(lines []string) (out []string) {
 	h := strings.Fields(stripObs(lines[0]))
 	out = append(out, strings.Join(h, " "))
 	fail := func(what string) []string {
 		for _, raw := range lines[1:] {
 			line := stripObs(raw)
-			if strings.HasPrefix(line, "final ") {
+			if strings.HasPrefix(line, "final ") || strings.HasPrefix(line, "in ") {
 				line += " => " + what
 			}
 			out = append(out, line)
@@ -179,8 +235,9 @@ func execTask(lines []string) (out []string) {
 		return fail("err")
 	}
 	var win string
+	rest := h
 	switch {
-	case h[1] == "tw" && len(h) == 6:
+	case h[1] == "tw" && len(h) >= 6:
 		win = "|window()\n    .period(" + durLit(atoi(h[2])) + ")"
 		if atoi(h[3]) != 0 {
 			win += "\n    .every(" + durLit(atoi(h[3])) + ")"
@@ -191,15 +248,29 @@ func execTask(lines []string) (out []string) {
 		if h[5] == "1" {
 			win += "\n    .fillPeriod()"
 		}
-	case h[1] == "cw" && len(h) == 5:
+		rest = h[6:]
+	case h[1] == "cw" && len(h) >= 5:
 		win = fmt.Sprintf("|window()\n    .periodCount(%d)\n    .everyCount(%d)", atoi(h[2]), atoi(h[3]))
 		if h[4] == "1" {
 			win += "\n    .fillPeriod()"
 		}
+		rest = h[5:]
 	default:
 		return fail("err")
 	}
-	script := "stream\n  |from()\n    .measurement('m')\n    .groupBy('g')\n  " + win + "\n  @bsink()\n"
+	barrier := ""
+	withBarrier, del := false, false
+	if len(rest) == 3 && rest[0] == "barrier" {
+		withBarrier, del = true, rest[2] == "1"
+		barrier = "|barrier()\n    .idle(" + durLit(atoi(rest[1])) + ")"
+		if del {
+			barrier += "\n    .delete(TRUE)"
+		}
+		barrier += "\n  @sink()\n  "
+	} else if len(rest) != 0 {
+		return fail("err")
+	}
+	script := "stream\n  |from()\n    .measurement('m')\n    .groupBy('g')\n  " + barrier + win + "\n  @bsink()\n"
 	tm, err := kit.NewTM(kit.TMOpts{})
 	if err != nil {
 		return fail("err")
@@ -212,11 +283,66 @@ func execTask(lines []string) (out []string) {
 		}
 		return fail("err")
 	}
+	// what the sink directly above the window has seen so far, per group
+	sinkKey := func(prefix string) string {
+		for _, k := range tm.Rec.Keys() {
+			if strings.HasPrefix(k, "c03/"+prefix) {
+				return k
+			}
+		}
+		return ""
+	}
+	// kind of the last message the sink above the window has recorded per group: 'p', 'b' or 'd'
+	lastKinds := func() (map[string]byte, int) {
+		last := map[string]byte{}
+		npoints := 0
+		k := sinkKey("sink")
+		if k == "" {
+			return last, 0
+		}
+		for _, m := range tm.Rec.Get(k) {
+			switch x := m.(type) {
+			case edge.PointMessage:
+				npoints++
+				last[x.Tags()["g"]] = 'p'
+			case edge.BarrierMessage:
+				last[x.GroupInfo().Tags["g"]] = 'b'
+			case edge.DeleteGroupMessage:
+				last[x.GroupInfo().Tags["g"]] = 'd'
+			}
+		}
+		return last, npoints
+	}
 	sent := map[int64]int64{}
+	active := map[string]bool{}
+	// wait (real time) until the idle barrier of every group written so far has fired (and, with delete, the
+	// group has been deleted): the last message recorded for the group is a barrier resp. a deletion
+	waitIdle := func() {
+		want := byte('b')
+		if del {
+			want = 'd'
+		}
+		deadline := time.Now().Add(5 * time.Second)
+		for time.Now().Before(deadline) {
+			last, npoints := lastKinds()
+			done := npoints >= len(sent) // every point written so far has passed the barrier node
+			for g := range active {
+				if last[g] != want {
+					done = false
+				}
+			}
+			if done {
+				break
+			}
+			time.Sleep(2 * time.Millisecond)
+		}
+	}
 	for _, raw := range lines[1:] {
 		t := strings.Fields(stripObs(raw))
-		if len(t) == 4 && t[0] == "w" {
+		switch {
+		case len(t) == 4 && t[0] == "w":
 			g, _ := kit.Unesc(t[1])
+			active[g] = true
 			sent[atoi(t[3])] = atoi(t[2])
 			pt, err := imodels.NewPoint("m", imodels.NewTags(map[string]string{"g": g}), imodels.Fields{"id": atoi(t[3])}, time.Unix(0, atoi(t[2])).UTC())
 			if err != nil {
@@ -225,7 +351,16 @@ func execTask(lines []string) (out []string) {
 			if err := tm.TM.WritePoints("db", "rp", imodels.ConsistencyLevelAll, []imodels.Point{pt}); err != nil {
 				return fail("err")
 			}
+		case len(t) == 1 && t[0] == "idle" && withBarrier:
+			waitIdle()
 		}
+	}
+	if withBarrier && del {
+		// Quiesce before stopping: with delete(TRUE) the barrier node's idle timer goroutine collects a
+		// DeleteGroup message into the node's OWN input edge; if the timer fires while the task is being
+		// drained that edge is already closed and kapacitor panics ("send on closed channel", barrier.go
+		// emitBarrier) — a defect of the barrier node outside property C03, avoided here.
+		waitIdle()
 	}
 	tm.TM.Drain()
 	done := make(chan error, 1)
@@ -239,29 +374,47 @@ func execTask(lines []string) (out []string) {
 		return fail("timeout")
 	}
 	byGroup := map[string][]string{}
-	var keys []string
-	for _, k := range tm.Rec.Keys() {
-		if strings.HasPrefix(k, "c03/") {
-			keys = append(keys, k)
-		}
-	}
-	sort.Strings(keys)
-	for _, k := range keys {
+	inGroup := map[string][]string{}
+	if k := sinkKey("bsink"); k != "" {
 		for _, m := range tm.Rec.Get(k) {
 			if b, ok := m.(edge.BufferedBatchMessage); ok {
 				g := b.Begin().Tags()["g"]
 				byGroup[g] = append(byGroup[g], renderBatch(b, sent))
-			} else {
-				byGroup[""] = append(byGroup[""], "nonbatch")
+			}
+		}
+	}
+	if k := sinkKey("sink"); k != "" {
+		for _, m := range tm.Rec.Get(k) {
+			switch x := m.(type) {
+			case edge.PointMessage:
+				g := x.Tags()["g"]
+				id, ok := x.Fields()["id"].(int64)
+				if !ok || sent[id] != x.Time().UnixNano() {
+					inGroup[g] = append(inGroup[g], "p:bad")
+				} else {
+					inGroup[g] = append(inGroup[g], fmt.Sprintf("p:%d", id))
+				}
+			case edge.BarrierMessage:
+				g := x.GroupInfo().Tags["g"]
+				inGroup[g] = append(inGroup[g], fmt.Sprintf("b:%d", x.Time().UnixNano()))
+			case edge.DeleteGroupMessage:
+				g := x.GroupInfo().Tags["g"]
+				inGroup[g] = append(inGroup[g], "d")
+			default:
+				inGroup[""] = append(inGroup[""], "other")
 			}
 		}
 	}
 	for _, raw := range lines[1:] {
 		line := stripObs(raw)
 		t := strings.Fields(line)
-		if len(t) == 2 && t[0] == "final" {
+		if len(t) == 2 && (t[0] == "final" || t[0] == "in") {
 			g, _ := kit.Unesc(t[1])
-			if bs := byGroup[g]; len(bs) > 0 {
+			src := byGroup
+			if t[0] == "in" {
+				src = inGroup
+			}
+			if bs := src[g]; len(bs) > 0 {
 				line += " => " + strings.Join(bs, " ")
 			} else {
 				line += " => none"
@@ -278,6 +431,9 @@ func execCase(lines []string) []string {
 	}
 	if strings.HasPrefix(lines[0], "task ") {
 		return execTask(lines)
+	}
+	if strings.HasPrefix(lines[0], "def ") {
+		return execDef(lines)
 	}
 	return execHook(lines)
 }
